@@ -10,9 +10,14 @@ import (
 func InitGenesis(ctx sdk.Context, k keeper.Keeper, state *types.GenesisState) {
 	k.SetParams(ctx, state.Params)
 
+	var lockerID uint64
 	for _, item := range state.Lockers {
+		if item.LockerId > lockerID {
+			lockerID = item.LockerId
+		}
 		k.SetLocker(ctx, item)
 	}
+	k.SetIDForLocker(ctx, lockerID)
 
 	for _, item := range state.LockerProductAssetMapping {
 		k.SetLockerProductAssetMapping(ctx, item)
